@@ -34,7 +34,7 @@ import (
 )
 
 type c04Op struct {
-	K    string `json:"k"` // w snap reap load boot reopen crash run | join2 part2 heal2 snap2 rebuild2
+	K    string `json:"k"` // w snap reap load boot reopen crash run | join2 part2 heal2 snap2 reap2 rebuild2
 	N    int    `json:"n,omitempty"`
 	Pad  int    `json:"pad,omitempty"`
 	Seed uint64 `json:"s,omitempty"` // content seed of a write batch
@@ -114,6 +114,8 @@ func c04Gen(r *core.Rand, tier string) any {
 			case parted && r.Bool(0.6):
 				sc.Ops = append(sc.Ops, c04Op{K: "heal2"})
 				parted = false
+			case r.Bool(0.15):
+				sc.Ops = append(sc.Ops, c04Op{K: "reap2"})
 			case r.Bool(0.5):
 				op := c04Op{K: "snap2"}
 				if r.Bool(0.5) {
@@ -135,7 +137,7 @@ func c04Gen(r *core.Rand, tier string) any {
 	retain := func(k string) c04Op { return c04Op{K: k, F: c04Faults[r.Intn(3)]} }
 	var motif []c04Op
 	switch x := r.Intn(100); {
-	case x < 30 && !(sc.Two && x < 15):
+	case x < 30 && !(sc.Two && x < 20):
 		motif = []c04Op{w(), {K: "snap"}, w(), retain("snap")}
 		switch r.Intn(4) {
 		case 0:
@@ -148,7 +150,34 @@ func c04Gen(r *core.Rand, tier string) any {
 			motif = append(motif, c04Op{K: "crash", Rm: r.Bool(0.5)})
 		}
 		motif = append(motif, c04Op{K: "snap"}, w(), c04Op{K: "snap", N: r.Intn(2)}, w())
-	case x < 50 && sc.Two:
+	case x >= 30 && x < 62 && sc.Two:
+		// (c) the follower's own chain on top of an INSTALLED snapshot that carries
+		// WAL files: the leader keeps a full snapshot plus unreaped incrementals (its
+		// reap threshold is raised so that nothing consolidates them), truncates its
+		// log while the follower is cut off, the follower is caught up by
+		// InstallSnapshot (stored as data.db + the leader's WAL files), applies more
+		// writes, snapshots incrementally, reaps, and is rebuilt from its own store.
+		sc.Knobs.SnapshotReapThreshold = 50
+		if !joined {
+			motif = append(motif, c04Op{K: "join2"})
+		}
+		if parted {
+			motif = append(motif, c04Op{K: "heal2"})
+		}
+		motif = append(motif, w(), c04Op{K: "snap"}, w(), c04Op{K: "snap"})
+		if r.Bool(0.5) {
+			motif = append(motif, w(), c04Op{K: "snap"})
+		}
+		motif = append(motif, c04Op{K: "part2"}, w(), w(), c04Op{K: "snap", N: 1}, c04Op{K: "heal2"},
+			c04Op{K: "run", N: r.Range(1500, 4000)}, w(), c04Op{K: "snap2"})
+		if r.Bool(0.5) {
+			motif = append(motif, w(), c04Op{K: "snap2"})
+		}
+		motif = append(motif, c04Op{K: "reap2"}, w())
+		if r.Bool(0.6) {
+			motif = append(motif, c04Op{K: "rebuild2"}, w())
+		}
+	case x < 20 && sc.Two:
 		if !joined {
 			motif = append(motif, c04Op{K: "join2"})
 		}
@@ -160,7 +189,7 @@ func c04Gen(r *core.Rand, tier string) any {
 	}
 	if len(motif) > 0 {
 		at := r.Intn(len(sc.Ops) + 1)
-		if sc.Two && motif[0].K != "join2" && !containsOp(sc.Ops[:at], "join2") && containsOp(motif, "snap2") {
+		if sc.Two && motif[0].K != "join2" && !containsOp(sc.Ops[:at], "join2") && (containsOp(motif, "snap2") || containsOp(motif, "reap2")) {
 			motif = append([]c04Op{{K: "join2"}}, motif...)
 		}
 		sc.Ops = append(sc.Ops[:at:at], append(motif, sc.Ops[at:]...)...)
@@ -213,6 +242,12 @@ type c04Eng struct {
 	parted   bool
 	fatalImg bool
 	restores int64 // num_restores accounted for (restarts and rebuild clones)
+
+	// dump of a node's live database taken right after a user snapshot of that
+	// node completed at a quiescent point, keyed by the snapshot's raft index:
+	// the state any node must have after restoring a snapshot with that index
+	dumpAt  map[uint64]string
+	n2Store string // signature of the follower's snapshot store at its last clone check
 }
 
 func c04Run(c *core.Ctx, raw json.RawMessage) {
@@ -223,7 +258,7 @@ func c04Run(c *core.Ctx, raw json.RawMessage) {
 	c.Rng = core.NewRand(sc.Seed)
 	s := sim.New(c)
 	defer s.Shutdown()
-	e := &c04Eng{c: c, sc: &sc, s: s, h: newHookCtl(c), restores: storeStat("num_restores")}
+	e := &c04Eng{c: c, sc: &sc, s: s, h: newHookCtl(c), restores: storeStat("num_restores"), dumpAt: map[uint64]string{}}
 	e.h.logHits = false
 	// error injection only; the fatal handler models rqlite's deliberate exit
 	// (Sink.Close failing after the staged WALs were consumed) as a crash.
@@ -319,6 +354,7 @@ func (e *c04Eng) snapshot(i int, n *node.Node, op c04Op) {
 	logf(c, "op%d snapshot %s f=%s: %v", i, n.ID, op.F, stErrClass(err))
 	if err == nil && op.F != "skip" {
 		c.Probe("snapshot_ok")
+		e.recordSnapshotState(n)
 	}
 	if err != nil && op.F == "" && containsStr(err.Error(), "wait until the configuration entry") {
 		c.Fault("persist-skipped-by-raft")
@@ -408,6 +444,21 @@ func (e *c04Eng) doOp(i int, op c04Op) {
 	case "snap2":
 		if e.n2 != nil {
 			e.snapshot(i, e.n2, op)
+		}
+	case "reap2":
+		if e.n2 == nil || !e.n2.Up {
+			return
+		}
+		var a, b int
+		var err error
+		_, withWAL, _ := snapStoreInfo(e.n2.Dir)
+		s.Do(fmt.Sprintf("op%d reap2", i), 120*time.Second, func() { a, b, err = e.n2.Store.Reap() })
+		logf(c, "op%d reap2: %d %d %v", i, a, b, stErrClass(err))
+		if err == nil && a > 0 {
+			c.Probe("follower_reaped")
+			if withWAL {
+				c.Probe("follower_reaped_over_installed_snapshot_with_wals")
+			}
 		}
 	case "reap":
 		var a, b int
@@ -590,8 +641,84 @@ func (e *c04Eng) check(i int, op c04Op) {
 		c.Probe("follower_checks")
 		if fd != live2 {
 			stViolate(c, "follower-differs", "after op %d (%s): follower at the leader's applied index has a different database: %s", i, op.K+"/"+op.F, sim.FirstDiff(fd, live2))
+			return
 		}
 	}
+	e.checkFollowerStore(i, op)
+}
+
+// recordSnapshotState remembers the database a node had when its newest
+// snapshot was taken (called right after a user snapshot returned, at a
+// quiescent point, when nothing newer than the snapshot has changed the
+// database).
+func (e *c04Eng) recordSnapshotState(n *node.Node) {
+	idx, _, _ := snapStoreInfo(n.Dir)
+	if idx == 0 || n.Store.DBAppliedIndex() > idx {
+		return
+	}
+	if d, err := e.s.DumpNode(n); err == nil {
+		e.dumpAt[idx] = d
+	}
+}
+
+// checkFollowerStore applies the rebuild oracle to the FOLLOWER's directory:
+// whenever its snapshot store changed (own snapshot, install, reap), a clone is
+// started from an image of its directory with the fingerprint removed. A
+// non-voter cannot elect itself, so the clone only restores the newest snapshot;
+// its dump must equal the database recorded when a snapshot with that raft
+// index was taken (on the follower itself, or on the leader for an install).
+func (e *c04Eng) checkFollowerStore(i int, op c04Op) {
+	c, s, n := e.c, e.s, e.n2
+	if n == nil || !n.Up || c.Failed() {
+		return
+	}
+	synctest.Wait()
+	idx, installed, sig := snapStoreInfo(n.Dir)
+	if sig == e.n2Store || idx == 0 {
+		return
+	}
+	e.n2Store = sig
+	want, ok := e.dumpAt[idx]
+	if !ok {
+		c.Probe("follower_store_changed_without_reference")
+		return
+	}
+	base := filepath.Join(s.Dir, "clone2")
+	os.RemoveAll(base)
+	cn := node.New(simnet.New(), 2, base, node.Knobs{NoSnapshotOnClose: true})
+	if err := node.CopyTree(n.Dir, cn.Dir); err != nil {
+		c.Discard("image-failed: " + clean(c, err.Error()))
+		return
+	}
+	removeFingerprint(cn.Dir)
+	e.h.armed = false
+	defer func() { e.h.armed = true }()
+	rest0 := storeStat("num_restores")
+	if err := startNode(s, cn, nil); err != nil {
+		stViolate(c, "follower-rebuild-failed", "after op %d (%s): a node started from the image of the follower's directory does not open: %v", i, op.K, err)
+		return
+	}
+	cd, derr := s.DumpNode(cn)
+	s.Do("stop-clone2", 300*time.Second, func() { cn.Stop() })
+	os.RemoveAll(base)
+	r := storeStat("num_restores")
+	if extra := r - rest0 - 1; extra > 0 {
+		c.ProbeN("follower_snapshot_install", int(extra))
+	}
+	e.restores = r
+	if derr != nil {
+		stViolate(c, "follower-rebuild-dump-failed", "after op %d (%s): database restored from the follower's snapshot store is unreadable: %v", i, op.K, derr)
+		return
+	}
+	c.Probe("follower_rebuild_checks")
+	if installed {
+		c.Probe("follower_rebuild_checks_over_installed_snapshot_with_wals")
+	}
+	if cd != want {
+		stViolate(c, "follower-rebuild-differs", "after op %d (%s): the follower's newest snapshot (raft index %d) restores a database different from the one applied at that index: %s", i, op.K+"/"+op.F, idx, sim.FirstDiff(cd, want))
+		return
+	}
+	logf(c, "op%d follower store check ok idx=%d", i, idx)
 }
 
 func init() {
